@@ -41,4 +41,10 @@ CLAIMS["C17"] = dict(
   technique="Coq invariant proof over the SAT-program monad (Abort is absorbing, solve is the only consumer of answers) + fault enumeration at every SAT-call position of the real solvers, replayed on the extracted model",
   engines=["coq-model", "correspondence"])
 
+CLAIMS["C18"] = dict(
+  text="Coq theorems (axiom-free, every oracle): the complete solver's component query makes exactly one SAT call and the stable solver's component step at most two (C18_*_calls_partial), whatever the answers; every model function recurses structurally on fuel or on a list, so model runs terminate. The bounds of the MaximalExtensionComputer loops (PR <= |base|+|PR|+1, ID <= 2|base|+|PR|+2, SST/STG <= (n+2)|base|+3) are NOT yet theorems: they are measured on every run - SAT calls per session and in total of the real solvers (recorded through the injected recording SAT solver, and replayed exactly on the extracted model) are compared with the bound computed by brute force per connected component (number of cf / adm / co sets and of preferred extensions from Spec.AF) on all frameworks with <= 2 (quick) / 3 (thorough) arguments and generated ones; a run of the model that exhausts its fuel (2*calls+12) is reported as non-termination.",
+  note=NOTE_TB + "The brute-force bound is only computable for small components (<= 8/9 arguments); larger cases are replay-only and counted as skipped in the evidence.",
+  technique="Coq proof of the call counts of the loop-free solvers + measured SAT-call counts of the real solvers (exact trace replay) against the brute-force bound per component",
+  engines=["coq-model", "correspondence"])
+
 NOT_YET = "check not built yet (work in progress; see DESIGN.md section 13)"
